@@ -270,6 +270,7 @@ impl System for Sys {
         self.steps += 1;
         let mut labels = vec![];
         let mut vs = vec![];
+        let mut poisoned = false;
         let drops_before = svc::drops();
         match ev {
             Ev::Connect(p) => {
@@ -353,6 +354,10 @@ impl System for Sys {
                     if !t.live {
                         labels.push("result-of-non-live-token".into());
                         if before != after_fetching {
+                            // The service's bookkeeping of a live fetch has just been erased: every
+                            // later in-flight / concurrency alarm along this history would only be
+                            // a consequence of this defect, so the state is not expanded further.
+                            poisoned = true;
                             // Which ongoing fetch did the stale result hit: one from the same peer
                             // (after a reconnect) or one from another peer?
                             let hit_from = before.get(&t.rid.to_string()).map(|e| e.0.clone()).unwrap_or_default();
@@ -390,7 +395,14 @@ impl System for Sys {
                             }
                         }
                     }
-                    self.absorb(ios, &mut labels, &mut vs);
+                    if poisoned {
+                        // Fetches dequeued by the same call are consequences of the erased
+                        // bookkeeping, not separate defects.
+                        let mut consequences = vec![];
+                        self.absorb(ios, &mut labels, &mut consequences);
+                    } else {
+                        self.absorb(ios, &mut labels, &mut vs);
+                    }
                 }
             }
         }
@@ -405,7 +417,7 @@ impl System for Sys {
         }
         labels.sort();
         labels.dedup();
-        StepOut { violations: vs, outcome: labels.join("+"), dead: false }
+        StepOut { violations: vs, outcome: labels.join("+"), dead: poisoned }
     }
 
     fn canon(&self) -> Vec<u8> {
@@ -430,7 +442,7 @@ fn main() {
     svc::install_logger();
     let thorough = ctx.tier == mcx::Tier::Thorough;
     let cfg = if thorough { Cfg { peers: 3, repos: 2 } } else { Cfg { peers: 2, repos: 1 } };
-    let (depth, devs) = if thorough { (6, 3) } else { (6, 2) };
+    let (depth, devs) = if thorough { (7, 3) } else { (6, 2) };
     let make = move || Sys::new(cfg);
     if let Some(w) = ctx.replay_witness() {
         // A replay names its own configuration.
